@@ -199,6 +199,36 @@ def merge_semantics(ctx):
     got = (y.attrs.get("seqid"), y.attrs.get("strand"), y.attrs.get("featuretype"), y.attrs.get("frame"), y.attrs.get("start"), y.attrs.get("end")) if y is not None else None
     ctx.ob("R3", got == ("chr1,chr2", ".", "sequence_feature", ".", 5, 30), "a run of mixed seqid / strand / frame / type is described as such; start and end are min and max", func=f,
            sig="mixed run -> (seqid, strand, type, frame, start, end) = %s" % (got,))
+    # ---- thorough tier: every start-ordered list of up to three intervals over six positions against the reference partition
+    if ctx.tier == "thorough":
+        P = 6
+        ivs = [(a_, b_) for a_ in range(1, P + 1) for b_ in range(a_, P + 1)]
+        n_lists = 0
+        bad = None
+        for n_ in (1, 2, 3):
+            for combo in itertools.product(ivs, repeat=n_):
+                if any(combo[i][0] > combo[i + 1][0] for i in range(n_ - 1)):
+                    continue
+                n_lists += 1
+                feats = [_feat("f%d" % i, start=iv[0], end=iv[1]) for i, iv in enumerate(combo)]
+                outs, t, so = run(feats)
+                # reference: a feature joins the run iff run.start <= f.start <= run.end + 1 (start order: the first half always holds)
+                want, cur = [], None
+                for i, iv in enumerate(combo):
+                    if cur is not None and iv[0] <= cur[1] + 1:
+                        cur = (cur[0], max(cur[1], iv[1]), cur[2] + ["f%d" % i])
+                    else:
+                        if cur is not None:
+                            want.append(cur)
+                        cur = (iv[0], iv[1], ["f%d" % i])
+                want.append(cur)
+                got = [(y.attrs.get("start"), y.attrs.get("end"), ch if ch else [y.name]) for y, ch in outs]
+                if got != [(a_, b_, c_) for a_, b_, c_ in want] and bad is None:
+                    bad = (combo, got, want)
+        ctx.ob("R1", bad is None, "with the default criteria the outputs' extents are the maximal runs of overlapping or adjacent intervals: all %d start-ordered lists of up to three "
+               "intervals over six positions agree with the reference partition" % n_lists, func=f,
+               sig="exhaustive small lists agree with the reference partition" if bad is None else "list %s -> %s, reference %s" % bad)
+        ctx.extra["exhaustive_lists"] = n_lists
     # ---- criteria protocol
     calls = []
     rec = Callback("criterion", None, fn=lambda pos, kw: (calls.append([getattr(x, "name", [c.name for c in x] if isinstance(x, (list, tuple)) else x) for x in pos]), True)[1])
